@@ -335,16 +335,29 @@ def rule_graphs(ctx):
         return isinstance(a, tuple) and a[:1] == ("index",) and a[2] == key and "add_node" in repr(a[1]) and repr(PREDS) in repr(a[1])
     ok = len(edges) == 1 and len(edges[0]["args"]) >= 3 and keyed(edges[0]["args"][1], HP) and keyed(edges[0]["args"][2], ("each", BP)) and edges[0]["args"][1][1] == edges[0]["args"][2][1]
     ctx.add("GRAPH", "tight:edge-direction", ok, ctx.site(t), "edge source is the node of the head predicate, target the node of the positive body predicate (same predicate -> node map)")
+    # positive occurrences, decided per kind of body formula (so that a match, an if-let or a guard spell the same table)
     pp = fx.fn("AtomicFormula::positive_predicates")
-    rows = [(k, flow.callees_in(flow.summ(a["body"]))) for m in hq.nodes(pp["body"], "Match") for k, _, a in hq.match_table(m)]
-    ref = [("AtomicFormula::Literal(Literal{sign: Sign::NoSign})", True)]
-    pos = [(k, any("predicate" in c for c in cs)) for k, cs in rows]
-    ctx.add("GRAPH", "positive_predicates", [p for p in pos if p[1]] == ref and len(pos) == 3, ctx.site(pp),
-            "only literals with Sign::NoSign contribute a positive predicate: %s" % pos, construct=pos)
-    bp = fx.fn("Body::positive_predicates")
-    vb = ev.function(bp)
-    ctx.add("GRAPH", "body-positive", "AtomicFormula::positive_predicates" in repr(vb) and "('each', ('place', 'self.formulas'))" in repr(vb), ctx.site(bp),
-            "Body::positive_predicates collects over every body formula")
+    from ..leaves import norm as _norm
+    pos = {}
+    for sg in fx.variants("syntax_tree::asp::mini_gringo::Sign"):
+        node = ("ctor", "AtomicFormula::Literal", (("0", ("ctor", "Literal", (("atom", ("param", "$a")), ("sign", ("ctor", "Sign::" + sg, ()))))),))
+        r = _norm(sym.Eval(fx, inline_depth=0).function(pp, [node]))
+        pos[sg] = ("call", "Atom::predicate", (("param", "$a"),)) in list(sym.subterms(r)) or ("call", "Literal::predicate", (node[2][0][1],)) in list(sym.subterms(r))
+        if not pos[sg] and ("$a" in repr(r) or "match" in repr(r)[:8]):
+            pos[sg] = "undecided"
+    r = _norm(sym.Eval(fx, inline_depth=0).function(pp, [("ctor", "AtomicFormula::Comparison", (("0", ("param", "$c")),))]))
+    pos["Comparison"] = "$c" in repr(r)
+    want = {sg: sg == "NoSign" for sg in fx.variants("syntax_tree::asp::mini_gringo::Sign")}
+    want["Comparison"] = False
+    ctx.add("GRAPH", "positive_predicates", pos == want, ctx.site(pp), "only literals with Sign::NoSign contribute a positive predicate: %s" % pos, construct=pos)
+    from .. import collect as _collect
+    sub = type(ctx)(ctx.prop, ctx.tier, ctx.facts)
+    _collect.check_asp_predicate_collectors(sub, "GRAPH", fx)
+    for o in sub.obls:
+        if o["key"] == "GRAPH:asp:Body::positive_predicates":
+            o = dict(o)
+            o["key"] = "GRAPH:body-positive"
+        ctx.obls.append(o)
     # private recursion
     p = fx.fn("has_private_recursion", impl_self="syntax_tree::asp::mini_gringo::Program")
     ev, v, recs = graph_effects(fx, p)
